@@ -109,6 +109,7 @@ func c12Run(t *testing.T, r *vfRand, nPeers, nActions, k int, rejectedOut *[]pee
 	defer emitter2.Close()
 
 	var cur *c12Step
+	slowFailedDials := 0
 	kad := func(p peer.ID) string { return simKadCoq([]byte(p)) }
 	// quiesce releases every parked call, recording the model event each release stands for
 	quiesce := func(ctx context.Context, _ map[*simCall]bool, done func() bool) {
@@ -124,6 +125,15 @@ func c12Run(t *testing.T, r *vfRand, nPeers, nActions, k int, rejectedOut *[]pee
 			}
 			call := pend[r.Intn(len(pend))]
 			cancelled := call.ctx.Err() != nil
+			if cur.action == "lookup" && call.kind == "dial" && call.origin == "query" && fails[call.p] && !cancelled && ctx.Err() == nil && r.Chance(35) {
+				// a black-holed address: the dial stays pending for 13 s and then fails on its own.  Nothing else
+				// moves meanwhile (every other call is parked), so only the caller's own context may abandon the
+				// dial; the lookup is alive, hence the failure is a genuine one and the member leaves the table
+				time.Sleep(13 * time.Second)
+				synctest.Wait()
+				cancelled = ctx.Err() != nil
+				slowFailedDials++
+			}
 			failed := fails[call.p] || cancelled || (hangs[call.p] && call.origin == "ping")
 			switch call.origin {
 			case "ping":
@@ -232,6 +242,15 @@ func c12Run(t *testing.T, r *vfRand, nPeers, nActions, k int, rejectedOut *[]pee
 				hangs[p] = !hangs[p]
 			} else {
 				fails[p] = !fails[p]
+				// half of the peers that start failing have also lost their connection (silently: no event reaches
+				// the node), so the next lookup has to dial them; a peer that recovers is connected again
+				node.h.net.mu.Lock()
+				if fails[p] && r.Bool() {
+					node.h.net.notConnected[p] = true
+				} else if !fails[p] {
+					delete(node.h.net.notConnected, p)
+				}
+				node.h.net.mu.Unlock()
 			}
 		case x < 88: // a lookup, possibly cancelled half way
 			cur.action = "lookup"
@@ -257,8 +276,11 @@ func c12Run(t *testing.T, r *vfRand, nPeers, nActions, k int, rejectedOut *[]pee
 					if pend := node.gate.Pending(); len(pend) > 0 {
 						call := pend[0]
 						if call.origin == "query" {
-							if fails[call.p] {
-								cur.events = append(cur.events, fmt.Sprintf("QueryFail %s false", kad(call.p)))
+							// the lookup may already have terminated by itself: a dial still pending then runs on a
+							// context the lookup cancelled, and its failure evicts nobody
+							cancelled := call.ctx.Err() != nil
+							if fails[call.p] || cancelled {
+								cur.events = append(cur.events, fmt.Sprintf("QueryFail %s %s", kad(call.p), vfBool(cancelled)))
 							} else {
 								cur.events = append(cur.events, "QueryOk "+kad(call.p))
 							}
